@@ -350,7 +350,8 @@ class TokenParser(Parser):
             # if the 2nd group (capturing comments) is not None,
             # it means we have captured a non-quoted (real) comment string.
             if comment := match.group(2):
-                return "\n" * comment.count("\n")  # so we will return empty to remove the comment
+                # keep the line breaks (for line numbers); a comment separates tokens like white space does
+                return "\n" * comment.count("\n") or " "
             # otherwise, we will return the 1st group
             return match.group(1)  # captured quoted-string
 
